@@ -293,3 +293,46 @@ def check_C14(tier, seed):
     cases = [c for c in vmrun.run_scenarios(scns) if 'harness_error' not in c]
     engine.judge_cases(rep, cases, devs, what='operation sequence')
     return rep.finish()
+
+
+def _c03_scenario(desc, optrees, real=True):
+    from . import unparse
+    from decimal import Decimal
+    lens = [0, 1, 9998, 9999, 10000, 10001]
+    n = lens[desc['ni'] - 1]
+    lines = [unparse.stmt(optrees[i - 1]) for i in (desc['o1'], desc.get('o2', 0), desc.get('o3', 0)) if i]
+    names = {'a': [0] * n, 'd': {'k%d' % i: 0 for i in range(n)}, 'b': [5], 's': 'a' * n, 'k': 2, 'm': Decimal(2)}
+    return {'names': [names], 'host': {}, 'calls': [{'src': '\n'.join(lines), 'n': 0, 'max': 10 ** 9}], 'desc': desc}
+
+
+def check_C03(tier, seed):
+    import random
+    rep = Report('C03', tier, seed)
+    devs = engine.open_deviations()
+    quick = tier == 'quick'
+    rep.notes['rule'] = ('TLC: the cap logic of the specification (parametric in Cap) explored exhaustively at Cap = 6: host list/dict/string '
+                         'of length 0, 1, Cap-2, Cap-1, Cap, Cap+1 x all sequences of <= MaxLen operations from an alphabet of 51 '
+                         '(every builtin/operator that returns or mutates a container): SizeInv on every heap object incl. transient '
+                         'results, AtCapFails (ParserError, container unchanged); code: the same scenario descriptors rendered at the true '
+                         'constant (lengths 0, 1, 9998, 9999, 10000, 10001) and validated by TLC with Cap = 10000')
+    consts = {'MaxLen': '2' if quick else '3'}
+    res = engine.model_check(rep, 'MC_C03.tla', 'MC_C03.cfg', consts=consts, timeout=900 if quick else 3400, coverage=not quick)
+    rep.exhaustive = True
+    for dev in ('ConcatUnchecked', 'ShortAddUnchecked', 'StrToListUnchecked'):
+        engine.model_check(rep, 'MC_C03.tla', 'MC_C03.cfg', consts={'MaxLen': '1'}, deviations=[dev], expect_violation=True, timeout=600)
+    engine.model_check(rep, 'MC_C03.tla', 'MC_C03.cfg', consts={'MaxLen': '1'}, deviations=['ShortMulRepeats', 'ShortMulNative'],
+                       expect_violation=True, timeout=600)
+    if not rep.machinery:
+        recs = res.printed()
+        optrees = [r['optrees'] for r in recs if 'optrees' in r]
+        descs = [r['sc'] for r in recs if 'sc' in r and 'summary' in r]
+        if not optrees or not descs:
+            rep.machinery.append('MC_C03 printed no operation table / scenarios')
+            return rep.finish()
+        rng = random.Random(seed)
+        pick = rng.sample(descs, min(len(descs), 400 if quick else 5000))
+        scns = [_c03_scenario(d, optrees[0]) for d in pick]
+        rep.notes['direction_a'] = {'scenarios_explored_by_tlc': len(descs), 'replayed_at_real_scale': len(scns)}
+        cases = [c for c in vmrun.run_scenarios(scns) if 'harness_error' not in c]
+        engine.judge_cases(rep, cases, devs, what='cap scenario')
+    return rep.finish()
